@@ -185,11 +185,22 @@ def n_binds(e):
     return max(sub, default=0)
 
 
+def strip(e):
+    """Remove ("shared", key, e) wrappers (one Python object used in several places)."""
+    if not isinstance(e, tuple):
+        return e
+    if e[0] == "shared":
+        return strip(e[2])
+    return tuple(strip(x) for x in e)
+
+
 def typ(e):
     k = e[0]
+    if k == "shared":
+        return typ(e[2])
     if k in ("ssrc", "num", "dot"):
         return "S"
-    if k in ("src", "src2", "sp2") + FIXP or k in ("inv", "linv", "rinv", "reinterpret", "translate"):
+    if k in ("src", "src2", "sp2") + FIXP or k in ("inv", "linv", "rinv", "reinterpret", "translate", "translatek"):
         return "P"
     if k in ("neg", "div"):
         return typ(e[1])
@@ -220,12 +231,20 @@ def exhaustive(al, nsrc, nssrc):
     for f in fixed:
         out += [("dot", DP, f), ("dot", f, DP)]
     out += [("reinterpret", ("reinterpret", DP, 1), 0), ("translate", ("reinterpret", DP, 1), 0), ("translate", DP, 2), ("reinterpret", DP, 1)]
+    # translate restricted to a key subset, through the function and through the module's own method
+    out += [("translatek", DP, 2, "function"), ("translatek", DP, 2, "method"), ("translatek", ("neg", DP), 2, "method")]
+    # right-nested fixed sub-expressions (printing them needs parentheses; VTB / TVTB binding is not associative)
+    s0, s1, s2 = ("sym", 0), ("sym", 1), ("sym", 2)
+    out += [("mul", DP, ("mul", s0, ("mul", s1, s2))), ("mul", ("mul", s0, ("mul", s1, s2)), DP), ("mul", ("mul", ("mul", s0, s1), s2), DP),
+            ("dot", DP, ("mul", s0, ("mul", s1, s2)))]
+    if al == "AHrr":
+        out += [("add", DP, ("sub", s0, ("sub", s1, s2))), ("sub", ("sub", s0, ("sub", s1, s2)), DP)]
     d1 = list(out)
     # depth 2: wrap each pointer-typed depth-1 expression by the unary operators and one binary of each kind
     for e in d1:
         if e[0] in DYN:
             continue
-        if typ(e) == "P" and not (e[0] in ("reinterpret", "translate") and e[2] != 0):
+        if typ(e) == "P" and not (e[0] in ("reinterpret", "translate", "translatek") and e[2] != 0):
             out += [("neg", e), ("rinv", e), ("mul", e, ("sym", 1)), ("mul", ("sp", 0), e), ("mul", e, DP2), ("mul", DP2, e),
                     ("mul", e, nums[1]), ("dot", e, ("sym", 2))]
             if al == "AHrr" or n_binds(e) == 0:
@@ -282,6 +301,8 @@ class World:
             with warnings.catch_warnings():
                 warnings.simplefilter("ignore")
                 self.T[(a, b_)] = np.asarray(self.vocabs[a].transform_to(self.vocabs[b_], populate=False))
+        # restricted to the key A: the outer product of the two A vectors (independent of transform_to's own handling of keys)
+        self.T[(0, 2, "A")] = np.outer(np.array(self.names2[0], float), np.array(self.names[0], float))
 
     # ---- Coq renderings --------------------------------------------------------------------------
     def entries(self):
@@ -291,7 +312,7 @@ class World:
         d = self.d
         eye = [[int(i == j) for j in range(d)] for i in range(d)]
         ti = lambda M: [[int(round(x)) for x in row] for row in M]  # noqa
-        return [eye, ti(self.T[(1, 0)]), ti(self.T[(0, 2)])]
+        return [eye, ti(self.T[(1, 0)]), ti(self.T[(0, 2)]), ti(self.T[(0, 2, "A")])]
 
     def to_parse(self, e, vcur=0):
         """Model/Parse.v expr (specification side)."""
@@ -318,6 +339,8 @@ class World:
             return f"(EApply 0 {self.to_parse(e[1])})"
         if k == "translate":
             return f"(EApply {1 if e[2] == 0 else 2} {self.to_parse(e[1])})"
+        if k == "translatek":
+            return f"(EApply 3 {self.to_parse(e[1])})"
         raise ValueError(k)
 
     def integer_only(self, e):
@@ -354,6 +377,8 @@ class World:
             return f"(zApply {c.zmat(self.mats()[0])} {self.to_dyn(e[1])})"
         if k == "translate":
             return f"(zApply {c.zmat(self.mats()[1 if e[2] == 0 else 2])} {self.to_dyn(e[1])})"
+        if k == "translatek":
+            return f"(zApply {c.zmat(self.mats()[3])} {self.to_dyn(e[1])})"
         raise ValueError(k)
 
     # ---- text (for reports) ----------------------------------------------------------------------
@@ -390,6 +415,9 @@ class World:
             return f"spa.reinterpret({self.text(e[1])}, v{e[2]})"
         if k == "translate":
             return f"spa.translate({self.text(e[1])}, v{e[2]}, populate=False)"
+        if k == "translatek":
+            return (f"spa.translate({self.text(e[1])}, v{e[2]}, populate=False, keys=['A'])" if e[3] == "function"
+                    else f"({self.text(e[1])}).translate(v{e[2]}, populate=False, keys=['A'])")
         raise ValueError(k)
 
 
@@ -404,6 +432,7 @@ class Net:
         self.model = spa.Network(seed=1)
         self.probes = []
         self.forms = []
+        self.shared = {}
         v0 = w.vocabs[0]
         with self.model:
             self.model.config[nengo.Ensemble].neuron_type = nengo.Direct()
@@ -500,6 +529,14 @@ class Net:
             return spa.reinterpret(self.obj(e[1]), w.vocabs[e[2]])
         if k == "translate":
             return spa.translate(self.obj(e[1]), w.vocabs[e[2]], populate=False)
+        if k == "translatek":
+            if e[3] == "function":
+                return spa.translate(self.obj(e[1]), w.vocabs[e[2]], populate=False, keys=[NAMES[0]])
+            return self.obj(e[1]).translate(w.vocabs[e[2]], populate=False, keys=[NAMES[0]])
+        if k == "shared":
+            if e[1] not in self.shared:
+                self.shared[e[1]] = self.obj(e[2])
+            return self.shared[e[1]]
         raise ValueError(k)
 
     def add_sink(self, stmts, out_type, sink_form):
@@ -602,7 +639,7 @@ def magnitude(w, stmts):
             return e[1] / e[2]
         if k in ("neg", "inv", "linv", "rinv", "reinterpret"):
             return m(e[1])
-        if k == "translate":
+        if k in ("translate", "translatek"):
             return m(e[1]) * 4 * w.d * 3
         if k in ("add", "sub"):
             return m(e[1]) + m(e[2])
@@ -623,11 +660,18 @@ def plan(al, d, seed, quick):
     g = Gen(rng, al)
     exact = al == "AHrr" or d == 16
     groups = []      # (statements, out type, origin)
+    # one AST object used in several statements: compiling it once must not change what it means the next time
+    x1 = ("shared", "x1", ("mul", ("src", 0), ("sym", 0)))
+    y1 = ("shared", "y1", ("mul", ("ssrc", 0), ("num", 2, 1, False, "int")))
+    z1 = ("shared", "z1", ("neg", ("src", 1)))
+    groups += [([("rinv", x1)], ("P", 0), "shared"), ([x1], ("P", 0), "shared"), ([("mul", x1, ("sym", 1))], ("P", 0), "shared"),
+               ([("neg", y1)], "S", "shared"), ([y1, ("mul", y1, ("ssrc", 1))], "S", "shared"),
+               ([("mul", ("sym", 2), z1)], ("P", 0), "shared"), ([z1, ("dot", z1, ("sym", 1))] if False else [z1], ("P", 0), "shared")]
     if d in (4, 16) or not quick:
         for e in exhaustive(al, 3, 2):
             if quick and depth(e) > 1 and (d == 16 or rng.random() < 0.5):
                 continue
-            t = ("P", e[2]) if e[0] in ("reinterpret", "translate") else (("P", 0) if typ(e) == "P" else "S")
+            t = ("P", e[2]) if e[0] in ("reinterpret", "translate", "translatek") else (("P", 0) if typ(e) == "P" else "S")
             groups.append(([e], t, "exhaustive"))
     nrand = (40 if quick else 300) if d != 16 else (12 if quick else 80)
     for _ in range(nrand):
@@ -675,10 +719,11 @@ def _work(args):
         o = c.outcome(net.run)
         if o[0] != "ok":
             viols.append((f"simulation of a batch of compiled expressions failed: {o[0]}: {str(o[1])[:120]}",
-                          {"case": {"alg": al, "d": d, "statements": [[w.text(e) for e in st] for st, _, _ in batch]}}))
+                          {"case": {"alg": al, "d": d, "statements": [[w.text(strip(e)) for e in st] for st, _, _ in batch]}}))
             continue
         values = o[1]
         for (stm, t, origin), (pi, shapes) in zip(batch, res):
+            stm = [strip(e) for e in stm]
             texts = [w.text(e) for e in stm]
             base = {"alg": al, "d": d, "statements": texts, "sources": {"src": w.src, "ssrc": w.ssrc, "names": w.names},
                     "source_forms": net.forms, "origin": origin}
